@@ -23,7 +23,7 @@
    the harness oracle only): next_done called by the application while it would have to wait, or between
    the iterations of join;
    the result / exception / results / exceptions properties (they read Task objects). *)
-From AV Require Import Base Gen_curio TaskGroup TaskGroupProofs TaskGroupOrder TaskGroupPolicy.
+From AV Require Import Base Gen_curio TaskGroup TaskGroupProofs TaskGroupOrder TaskGroupPolicy TaskGroupCode TaskGroupCodeProofs.
 
 (* every non-daemon member is yielded exactly once, in completion order *)
 Theorem C10_completion_order_exactly_once : forall p m ls, forallb fresh_label ls = true ->
@@ -124,6 +124,22 @@ Example C10_ex_app_next :
   app_consumed g = [2%N] /\ consumed g = [1%N] /\ completed g = Some 1%N /\ log_done g = [2; 1]%N.
 Proof. vm_compute. repeat split. Qed.
 
+(* TaskGroup._on_done and TaskGroup._add_task are translated from the Python source on every run, statement by
+   statement (gen/Gen_curio.v: on_done_code, add_task_code); nothing was left untranslated, and run on the model's
+   state the generated code does exactly what the model's on_done / add_task do - for every group state, every
+   task (daemon or not, running / cancel-requested / already finished with any outcome) *)
+Theorem C10_code_known : gknown 6 on_done_code && gknown 6 add_task_code = true.
+Proof. exact taskgroup_code_known. Qed.
+
+Theorem C10_on_done_from_source : forall g t m, get t (members g) = Some m ->
+  grun 12 (view g t) g {| c_t := t; c_daemon := m_daemon m; c_status := m_status m |} on_done_code = GOk (on_done g t).
+Proof. exact generated_on_done. Qed.
+
+Theorem C10_add_task_from_source : forall g t d st,
+  grun 20 (view g t) g {| c_t := t; c_daemon := d; c_status := st |} add_task_code =
+  if snd (add_task g t d st) then GOk (fst (add_task g t d st)) else GRaised.
+Proof. exact generated_add_task. Qed.
+
 Print Assumptions C10_completion_order_exactly_once.
 Print Assumptions C10_exactly_once.
 Print Assumptions C10_completed_is_first.
@@ -133,3 +149,6 @@ Print Assumptions C10_loop_left_only_by_policy.
 Print Assumptions C10_never_past_a_stop.
 Print Assumptions C10_outcomes_stable.
 Print Assumptions C10_only_join_consumes.
+Print Assumptions C10_code_known.
+Print Assumptions C10_on_done_from_source.
+Print Assumptions C10_add_task_from_source.
